@@ -249,7 +249,19 @@ func genRename(prop string, seed uint64, run int, tier string) *Scenario {
 		}
 		for i := 0; i < n; i++ {
 			id++
-			switch g.r.Intn(8) {
+			switch g.r.Intn(9) {
+			case 8: // out to the unwatched place and back (or re-created) under the SAME name, then moved within:
+				// the first half of the last move meets a stale, unmatched entry for its own old name
+				o2 := fmt.Sprintf("out/y%d_%d", t, id)
+				ops = append(ops, Op{K: OpRename, P: cur, P2: o2})
+				if g.chance(0.5) {
+					ops = append(ops, Op{K: OpRename, P: o2, P2: cur})
+				} else {
+					ops = append(ops, Op{K: OpCreate, P: cur})
+				}
+				to := fmt.Sprintf("%s/t%d_%d", []string{"a", "b"}[g.r.Intn(2)], t, id)
+				ops = append(ops, Op{K: OpRename, P: cur, P2: to})
+				cur = to
 			case 0, 1, 2: // within / between watched directories
 				to := fmt.Sprintf("%s/t%d_%d", []string{"a", "b"}[g.r.Intn(2)], t, id)
 				ops = append(ops, Op{K: OpRename, P: cur, P2: to})
@@ -811,5 +823,27 @@ func genAPIEnum(prop string, seed uint64, run int) *Scenario {
 	}
 	ops = append(ops, Op{K: OpWrite, P: "u/f", N: 1}, Op{K: OpWrite, P: "u/g", N: 1}, Op{K: OpCreate, P: "u/d/last"})
 	sc.Tasks = []TaskScript{{Name: "seq", Role: "client", Ops: ops}}
+	return sc
+}
+
+// ---------------------------------------------------------------------------
+// C14: Watchers of different buffer sizes created at the same time by several
+// goroutines (each gets the capacity it asked for, NewWatcher the default)
+
+func genCreate(prop string, seed uint64, run int) *Scenario {
+	g := newGen(seed)
+	sc := &Scenario{Prop: prop, Family: "create", Seed: seed, Run: run}
+	g.swarm(&sc.Cfg)
+	sc.Setup = []Op{{K: OpMkdir, P: "m"}}
+	for t := 0; t < 2+g.r.Intn(3); t++ {
+		var ops []Op
+		for k := 1 + g.r.Intn(3); k > 0; k-- {
+			ops = append(ops, Op{K: OpNewWatcher, N: []int{-1, -1, 0, 1, 3, 16, 64}[g.r.Intn(7)]})
+			if g.chance(0.3) {
+				ops = append(ops, Op{K: OpYield})
+			}
+		}
+		sc.Tasks = append(sc.Tasks, TaskScript{Name: fmt.Sprintf("maker%d", t), Role: "client", Ops: ops})
+	}
 	return sc
 }
